@@ -62,6 +62,10 @@ func c11StmtKits() map[string][]*ast.Node {
 		"compound-div-zero": {set("c11d", ast.Num("6")), ast.ExprS(ast.Asg("/=", ast.Id("c11d"), ast.Num("0")))},
 		"compound-on-member-of-number": {set("c11n", ast.Num("5")), ast.ExprS(ast.Asg("+=", ast.Mem(ast.Id("c11n"), "k"), ast.Num("1")))},
 		"compound-bad-operand": {set("c11d", ast.Num("6")), ast.ExprS(ast.Asg("*=", ast.Id("c11d"), ast.Bin("<", ast.Arr(), ast.Num("1"))))},
+		// one ~ site evaluated with a good regex value first and an invalid one afterwards
+		"bad-regex-second-time-at-a-site": {set("c11r", ast.Regex("a")), set("c11t", ast.Call(ast.Id("c11m"), ast.Str("a"), ast.Id("c11r"))),
+			set("c11r", ast.Regex("(")), set("c11t", ast.Call(ast.Id("c11m"), ast.Str("a"), ast.Id("c11r")))},
+		"bad-pattern-string-second-time-at-a-site": {set("c11t", ast.Call(ast.Id("c11m"), ast.Str("a"), ast.Str("a"))), set("c11t", ast.Call(ast.Id("c11m"), ast.Str("a"), ast.Str("[")))},
 	}
 }
 
@@ -247,6 +251,7 @@ func c11Base(t *rapid.T) *DCase {
 	// every program gets a function for the json kit and a BEGIN rule that prints first
 	items := []*ast.Node{
 		ast.Func("c11fun", nil, ast.Block(ast.Return(ast.Num("1")))),
+		ast.Func("c11m", []string{"c11s", "c11p"}, ast.Block(ast.Return(ast.Bin("~", ast.Id("c11s"), ast.Id("c11p"))))),
 		ast.Rule("BEGIN", nil, ast.Block(ast.Print(ast.Str("start")))),
 	}
 	c.Prog = ast.Prog(append(items, c.Prog.C...)...)
@@ -512,7 +517,7 @@ func genC11Splice(t *rapid.T) *C11Splice {
 
 func TestC11(t *testing.T) {
 	rec := start(t, "C11", "fault_enumeration",
-		"(a) syntax splice: a valid, terminating program whose BEGIN rule prints first (from the C07/C08/C19 generators) x a splice position (any token boundary for illegal characters; any statement start, filtered by context, for the others) x a recipe that is a syntax error by the grammar: illegal character, stray ) ] => : , }, return at rule level, break/continue outside any loop, invalid assignment targets (1 = 2, \"s\" = 2, a + b = 2, [a] = 2, (a == b) = 2, true = 1), unterminated string or regex, unbalanced {. Oracle: outcome SyntaxError and not one byte of output. (b) runtime fault injection: one expression slot of the program (chosen uniformly over slot kinds: rule pattern, expression statement, operand slots, call / printf argument, array element, object value, index expression, member base, if / while condition, for init / condition / post, for-in iterable, match subject / literal pattern / case body, return value, print argument, assignment and compound-assignment value, short-circuit right operand, selector) is replaced by one of 19 fault kits, or a statement kit (6) is inserted at a statement position (rule, function, loop, match block). Oracle: refjq runs the faulted program: if the slot is reached the run must end in RuntimeError with exactly the output produced before; if the slot is dead the program must behave as without the fault. Non-trivial: (a) always; (b) the fault is reached after >= 1 line was printed and >= 1 further line would have followed. distinct = (kit, slot kind, program).")
+		"(a) syntax splice: a valid, terminating program whose BEGIN rule prints first (from the C07/C08/C19 generators) x a splice position (any token boundary for illegal characters; any statement start, filtered by context, for the others) x a recipe that is a syntax error by the grammar: illegal character, stray ) ] => : , }, return at rule level, break/continue outside any loop, invalid assignment targets (1 = 2, \"s\" = 2, a + b = 2, [a] = 2, (a == b) = 2, true = 1), unterminated string or regex, unbalanced {. Oracle: outcome SyntaxError and not one byte of output. (b) runtime fault injection: one expression slot of the program (chosen uniformly over slot kinds: rule pattern, expression statement, operand slots, call / printf argument, array element, object value, index expression, member base, if / while condition, for init / condition / post, for-in iterable, match subject / literal pattern / case body, return value, print argument, assignment and compound-assignment value, short-circuit right operand, selector) is replaced by one of 19 fault kits, or a statement kit (11) is inserted at a statement position (rule, function, loop, match block). Oracle: refjq runs the faulted program: if the slot is reached the run must end in RuntimeError with exactly the output produced before; if the slot is dead the program must behave as without the fault. Non-trivial: (a) always; (b) the fault is reached after >= 1 line was printed and >= 1 further line would have followed. distinct = (kit, slot kind, program).")
 	defer rec.Finish()
 	rec.Assume("refjq decides whether the faulted slot is evaluated; every kit is a runtime error by the documents (division by zero, calling a non-function, invalid regex, comparing containers, unknown $-variable, bad printf arguments, missing method arguments, index before the start, invalid escape, copying a function, iterating a non-iterable, storing a member on a scalar, string index on an array, index beyond the fill limit)")
 	rec.Replayer("fault", func(raw json.RawMessage) error {
